@@ -34,7 +34,7 @@ fn rt() -> &'static tokio::runtime::Runtime {
 }
 
 fn tmp_root() -> PathBuf {
-    let p = PathBuf::from("/verif/target/tmp");
+    let p = PathBuf::from(format!("{}/target/tmp", vf_common::out_root()));
     std::fs::create_dir_all(&p).ok();
     p
 }
